@@ -10,7 +10,8 @@ Core Lean only (no Mathlib) so the driver can run it.
 -/
 namespace HgVerif.NodeSched
 
-abbrev Time := Nat
+/-- times are microsecond counts; a notation (not a definition) so that `omega` sees `Nat` -/
+scoped notation "Time" => Nat
 abbrev Tag := Nat
 abbrev Ev := Time × Tag
 
